@@ -738,9 +738,21 @@ class Map(Node):
         if bad is not None:
             return bad
 
+        def has_nan(x: t.Any, depth: int = 0) -> bool:
+            if isinstance(x, (tuple, frozenset)) and depth < 6:
+                return any(has_nan(y, depth + 1) for y in x)
+            try:
+                return bool(x != x)
+            except Exception:
+                return False
+
         def mk():
             d = {kp.image: vp.image for (kp, vp) in zip(kparts, vparts)}  # type: ignore
             if len(d) != len(items):
+                raise _Collide()
+            if sum(1 for k in d if has_nan(k)) > 1:
+                # several keys holding a NaN (of Decimal / float): equal to nothing, themselves included, so they stay apart as typed
+                # keys although they are written alike - the same cell as above, seen from the other side
                 raise _Collide()
             return self.ctor(d)
         try:
